@@ -31,7 +31,12 @@ def done_sites(prog, body, name, depth=0):
     return sorted(set(prog.sites(body, suffix(name), depth=depth)))
 
 
-def gate_false_targets(body, field):
+def gate_true_targets(body, field):
+    """for `if self.<field> {..}` on a bool config field: the blocks entered when it is true"""
+    return gate_false_targets(body, field, want_true=True)
+
+
+def gate_false_targets(body, field, want_true=False):
     """for `if self.<field> {..}` on a bool config field: the blocks entered when it is false"""
     out = []
     for i, bl in enumerate(body.blocks):
@@ -50,6 +55,10 @@ def gate_false_targets(body, field):
         if not src or src.get('rv') != 'use' or src['op']['k'] == 'const':
             continue
         if any(f.endswith('::' + field) for f in pl_fields(src['op']['pl'])):
+            if want_true:
+                if any(v == '0' for v, _ in t['targets']) and t.get('otherwise') is not None:
+                    out.append(t['otherwise'])
+                continue
             for v, b in t['targets']:
                 if v == '0':
                     out.append(b)
@@ -208,7 +217,7 @@ def uses_of(body, l):
     return out
 
 
-def fate(body, l, classify_call, depth=10, seen=None):
+def fate(body, l, classify_call, depth=10, seen=None, classify_switch=None):
     """follow a value forward through moves and wrapper calls; returns a set of fates:
     'propagated' (returned / yielded / `?` / passed to an accepted consumer), 'matched',
     'swallowed:<callee>' (explicitly discarded), 'dropped' (never looked at), 'stored'."""
@@ -228,14 +237,21 @@ def fate(body, l, classify_call, depth=10, seen=None):
         kind = u[0]
         if kind == 'assign':
             lhs = u[2]
+            if classify_switch and any(pl['l'] == l and pl['p'] and pl['p'][0] == 'as:Ok' for pl in operand_places(u[3])):
+                continue    # the Ok payload is taken out: says nothing about what happens to the error
             if lhs['p']:
                 fates.add('stored')
             elif lhs['l'] == 0:
                 fates.add('propagated')
             else:
-                fates |= fate(body, lhs['l'], classify_call, depth - 1, seen)
-        elif kind == 'discr' or kind == 'switch':
+                fates |= fate(body, lhs['l'], classify_call, depth - 1, seen, classify_switch)
+        elif kind == 'discr':
+            t = body.blocks[u[1]]['term']
+            if classify_switch and t['k'] == 'switch' and t['discr']['k'] != 'const' and t['discr']['pl']['l'] == u[2]['l']:
+                continue    # judged at the switch itself
             fates.add('matched')
+        elif kind == 'switch':
+            fates.add(classify_switch(body, u[1], u[2]) if classify_switch else 'matched')
         elif kind == 'yield' or kind == 'return':
             fates.add('propagated')
         elif kind == 'call':
@@ -248,7 +264,7 @@ def fate(body, l, classify_call, depth=10, seen=None):
                 elif d['l'] == 0:
                     fates.add('propagated')
                 else:
-                    fates |= fate(body, d['l'], classify_call, depth - 1, seen)
+                    fates |= fate(body, d['l'], classify_call, depth - 1, seen, classify_switch)
             else:
                 fates.add(verdict)
     return fates
@@ -269,3 +285,29 @@ def origin_locals(body, l, depth=14, seen=None):
                 if a['k'] != 'const':
                     origin_locals(body, a['pl']['l'], depth - 1, seen)
     return seen
+
+
+def result_switch_fate(body, bb, term):
+    """`match r { Ok(..) => .., Err(..) => .. }` on a Result: 'matched' unless the Err arm does nothing at all, i.e. the
+    blocks reachable only through the Err arm (before control rejoins the Ok arm) contain no assignment, call, yield or
+    return -- `if let Ok(v) = r { .. }` / `Err(_) => {}`: the error is discarded silently ('swallowed:ignored-Err-arm')."""
+    if not (term.get('adt') or '').startswith('std::result::Result'):
+        return 'matched'
+    names = term.get('variants') or {}
+    tg = {names.get(str(v)): t for v, t in term.get('targets') or []}
+    other = term.get('otherwise')
+    ok_t = tg.get('Ok', other)
+    err_t = tg.get('Err', other)
+    if ok_t is None or err_t is None or ok_t == err_t:
+        return 'matched'
+    avoid = frozenset([bb])
+    ok_reach = body.reachable_from([ok_t], avoid=avoid)
+    err_only = [x for x in body.reachable_from([err_t], avoid=avoid) if x not in ok_reach]
+    for x in err_only:
+        bl = body.blocks[x]
+        if any(st['s'] == 'assign' and not (body.local_ty(st['lhs']['l']) == '()' and not st['lhs']['p'])
+               for st in bl['stmts']):   # `_n = ()`: the unit value of an empty arm is not an effect
+            return 'matched'
+        if bl['term']['k'] not in ('goto', 'drop'):
+            return 'matched'
+    return 'swallowed:ignored-Err-arm'
